@@ -1366,27 +1366,28 @@ package formula
 //@   at call (*Runner).resolveEqualsEqualsEqualsBinaryExpression: assert[C05] expr.Operator.Token == SK_EqualsEqualsEquals && v1 == valOf(old(world), expr.Left) && v2 == valOf(step(old(world), expr.Left), expr.Right)
 //@   at call (*Runner).resolveNotEqualsEqualsBinaryExpression: assert[C05] expr.Operator.Token == SK_ExclamationEqualsEquals && v1 == valOf(old(world), expr.Left) && v2 == valOf(step(old(world), expr.Left), expr.Right)
 
-// Bit operators (C18): on the truncated 64-bit integer values of the operands.
+// Bit operators (C18): the integer that the operation on the truncated 64-bit integer values of
+// the operands gives - as an exact decimal, not through float64.
 //@ func (*Runner).resolveAmpersandBinaryExpression
 //@   tags [C18,C03]
 //@   requires wfv(v1) && wfv(v2)
 //@   panics never
 //@   ensures result1 == nil && wfv(result0)
-//@   ensures[C18] num(v1) && num(v2) ==> num(result0) && fresh(nref(result0)) && nval(result0) == dvF64(i2f(d2i(nval(v1)) & d2i(nval(v2))))
+//@   ensures[C18] num(v1) && num(v2) ==> num(result0) && fresh(nref(result0)) && nval(result0) == dvInt(d2i(nval(v1)) & d2i(nval(v2)))
 
 //@ func (*Runner).resolveBarBinaryExpression
 //@   tags [C18,C03]
 //@   requires wfv(v1) && wfv(v2)
 //@   panics never
 //@   ensures result1 == nil && wfv(result0)
-//@   ensures[C18] num(v1) && num(v2) ==> num(result0) && fresh(nref(result0)) && nval(result0) == dvF64(i2f(d2i(nval(v1)) | d2i(nval(v2))))
+//@   ensures[C18] num(v1) && num(v2) ==> num(result0) && fresh(nref(result0)) && nval(result0) == dvInt(d2i(nval(v1)) | d2i(nval(v2)))
 
 //@ func (*Runner).resolveCaretBinaryExpression
 //@   tags [C18,C03]
 //@   requires wfv(v1) && wfv(v2)
 //@   panics never
 //@   ensures result1 == nil && wfv(result0)
-//@   ensures[C18] num(v1) && num(v2) ==> num(result0) && fresh(nref(result0)) && nval(result0) == dvF64(i2f(d2i(nval(v1)) ^ d2i(nval(v2))))
+//@   ensures[C18] num(v1) && num(v2) ==> num(result0) && fresh(nref(result0)) && nval(result0) == dvInt(d2i(nval(v1)) ^ d2i(nval(v2)))
 
 //@ func (*Runner).resolveCommaBinaryExpression
 //@   tags [C07]
